@@ -357,7 +357,7 @@ func (r *blockReader) Value(seg Segment) []byte {
 			ret = append(ret, r.source[i])
 		}
 		i = -1
-		if s.Stop > seg.Stop {
+		if s.Stop >= seg.Stop {
 			break
 		}
 	}
